@@ -21,15 +21,15 @@ Import ListNotations.
 (** ** a sequence of swaps *)
 
 Theorem swaps_fold : forall sw s,
-  WF s -> s_kind s = KBdd -> Forall (fun k => S k < nlevels s) sw ->
+  WF s -> bink (s_kind s) -> Forall (fun k => S k < nlevels s) sw ->
   let s' := fold_left level_swap sw s in
-  WF s' /\ s_kind s' = KBdd /\ nlevels s' = nlevels s /\ s_handles s' = s_handles s
+  WF s' /\ s_kind s' = s_kind s /\ nlevels s' = nlevels s /\ s_handles s' = s_handles s
   /\ s_l2v s' = replay sw (s_l2v s)
   /\ (forall h a, In h (s_handles s) ->
         eval_vars s' (snd h) a = eval_vars s (snd h) a /\ exists v, eval_vars s (snd h) a = Some v).
 Proof.
   induction sw as [|k sw IH]; intros s H Hk Hsw; simpl.
-  - split; [exact H|]. split; [exact Hk|]. split; [reflexivity|]. split; [reflexivity|]. split; [reflexivity|].
+  - split; [exact H|]. split; [reflexivity|]. split; [reflexivity|]. split; [reflexivity|]. split; [reflexivity|].
     intros h a Hh. split; [reflexivity|].
     destruct (wf_handles s H h Hh) as [Ok _]. unfold eval_vars.
     apply (sem_total s H); [exact Ok | apply asg_choice_ok].
@@ -120,7 +120,7 @@ Section Order.
 Variable s : snap.
 Variable order : list nat.
 Hypothesis H : WF s.
-Hypothesis Hk : s_kind s = KBdd.
+Hypothesis Hk : bink (s_kind s).
 (* the requests on which [set_var_order] does not panic: variables in range, none twice *)
 Hypothesis Hnd : NoDup order.
 Hypothesis Hr : Forall (fun v => v < nlevels s) order.
@@ -134,7 +134,7 @@ Lemma levels_valid : valid_order n levels.
 Proof. apply valid_order_levels; assumption. Qed.
 
 Theorem set_var_order_model_correct :
-  WF s' /\ s_kind s' = KBdd /\ nlevels s' = n /\ s_handles s' = s_handles s
+  WF s' /\ s_kind s' = s_kind s /\ nlevels s' = n /\ s_handles s' = s_handles s
   /\ (forall h a, In h (s_handles s) ->
         eval_vars s' (snd h) a = eval_vars s (snd h) a /\ exists v, eval_vars s (snd h) a = Some v)
   /\ (forall v, v < n -> nth v (s_v2l s') 0 = nth (nth v (s_v2l s) 0) target 0)
@@ -200,7 +200,7 @@ Proof.
   intros h1 h2 H1 H2.
   destruct set_var_order_model_correct as [A [B [_ [D _]]]].
   apply (canon_kary_handles s' A).
-  - rewrite B. split; discriminate.
+  - rewrite B. destruct Hk as [E|E]; rewrite E; split; discriminate.
   - rewrite D. exact H1.
   - rewrite D. exact H2.
 Qed.
@@ -260,7 +260,7 @@ Qed.
 
 (** the facts above in one statement (Props/C08.v) *)
 Example ex_swap_all :
-  WF ex_swap /\ s_kind ex_swap = KBdd /\ 1 < nlevels ex_swap
+  WF ex_swap /\ bink (s_kind ex_swap) /\ 1 < nlevels ex_swap
   /\ dep_ids ex_swap 0 = [5; 3]%positive
   /\ find_node (level_swap ex_swap 0) 2 = None
   /\ find_node (level_swap ex_swap 0) 3 = Some (mkNode 0 [ex_e (RN 7); ex_e (RN 1)] 0 1)
@@ -268,7 +268,7 @@ Example ex_swap_all :
   /\ s_v2l (set_var_order_model ex_swap [2; 1; 0]) = [2; 1; 0]
   /\ NoDup [2; 1; 0] /\ Forall (fun v => v < nlevels ex_swap) [2; 1; 0].
 Proof.
-  split; [exact ex_swap_WF|]. split; [reflexivity|]. split; [vm_compute; lia|].
+  split; [exact ex_swap_WF|]. split; [left; reflexivity|]. split; [vm_compute; lia|].
   split; [vm_compute; reflexivity|]. split; [vm_compute; reflexivity|].
   split; [vm_compute; reflexivity|]. split; [vm_compute; reflexivity|].
   split; [vm_compute; reflexivity|]. exact (proj2 (proj2 ex_order_result)).
